@@ -31,6 +31,7 @@ package dns
 //@   assert at* ".Conn.Read(" datagram: callres("isPacketConn")
 //@   callsite "ReadFull" body: len(arg1) == length
 //@   assert at "return nil, ErrShortRead" short: n < 12
+//@   assert at "return nil, ErrShortRead" consumed: callres("isPacketConn") || called("ReadFull")
 //@   ensures hdr: ret1 == nil ==> len(ret0) >= 12
 //@ func (*Server).readTCP [C12]
 //@   requires srv != nil && conn != nil
